@@ -101,6 +101,50 @@ pub fn program_ok(p: &Program) -> bool {
         })
 }
 
+/// Every variable used as an operand of a finite-domain constraint is given a domain by a
+/// domain goal that every branch executes (i.e. one that is not inside a disjunction).
+pub fn fd_wellformed(p: &Program) -> bool {
+    fn operands(g: &G, out: &mut Vec<VarIx>) {
+        let mut add = |t: &T| t.vars(out);
+        match g {
+            G::Ltefd(a, b) | G::Ltfd(a, b) | G::Diseqfd(a, b) => {
+                add(a);
+                add(b);
+            }
+            G::Plusfd(a, b, c) | G::Minusfd(a, b, c) | G::Timesfd(a, b, c) => {
+                add(a);
+                add(b);
+                add(c);
+            }
+            G::Distinctfd(ts) => {
+                for t in ts {
+                    add(t);
+                }
+            }
+            _ => {}
+        }
+        for c in g.children() {
+            operands(c, out);
+        }
+    }
+    fn domains(gs: &[G], out: &mut Vec<VarIx>) {
+        for g in gs {
+            match g {
+                G::Dom(t, _) | G::DomRange(t, _, _) => t.vars(out),
+                G::Fresh(_, inner) | G::Conj(inner) => domains(inner, out),
+                _ => {}
+            }
+        }
+    }
+    let mut used = vec![];
+    for g in p.body.iter() {
+        operands(g, &mut used);
+    }
+    let mut have = vec![];
+    domains(&p.body, &mut have);
+    used.iter().all(|v| have.contains(v))
+}
+
 /// Goals that exist only as interleaving goals.
 pub fn has_bfs_only(p: &Program) -> bool {
     p.any(|g| {
